@@ -642,8 +642,12 @@ def check_hkdf(ck_ob, mod, label):
                     cnt_e = Lf.s(("fld", ST, CNT, p.objgen.get(ST, 0)))
                 entry_excl0.append(_excludes_zero(ex, p, cnt_e))
                 okb = all(outs.get((OUTP, i)) == list(gf2.sym_word(("mem", ST, OUTF + pz + i), 8)) for i in range(avail)) and not [k for k in outs if k[0] == OUTP and k[1] >= avail]
-                c("STREAM", okb and not ev and not var, "leftover-all(posn=%d)" % pz, "the %d left-over bytes are copied out first" % avail, "left-over bytes not copied from last_block[%d..32)" % pz)
                 ic, ir_ = p.env.get(("init", ptrs[0].id)), p.env.get(("init", ints[0].id))
+                if avail and not outs and not ev and not var and ic == Lf.s(OUTP) and ir_ == Lf.s(OLEN) and p.lfmem.get((ST, POSN, 1)) in (None, Lf.c(pz)):
+                    # nothing at all happens in front of the loop although left-over bytes exist: they are served inside the loop (one loop whose
+                    # round copies what the buffer holds and then refills it) - another shape than "left-over bytes first, then whole blocks"
+                    raise Broken("tinyjambu_hkdf_expand: the left-over bytes are not handled in front of the block loop (position %d reaches the loop untouched): this shape is not analysed by the per-class rule" % pz)
+                c("STREAM", okb and not ev and not var, "leftover-all(posn=%d)" % pz, "the %d left-over bytes are copied out first" % avail, "left-over bytes not copied from last_block[%d..32)" % pz)
                 wc = Lf({OUTP: 1, 1: avail}) if avail else Lf.s(OUTP)
                 wr = Lf({OLEN: 1, 1: -avail}) if avail else Lf.s(OLEN)
                 c("STREAM", ic == wc and ir_ == wr, "leftover-cursor(posn=%d)" % pz, "block loop starts at out + %d with outlen - %d left" % (avail, avail), "block loop starts with cursor %s / remaining %s" % (ic, ir_))
